@@ -827,3 +827,57 @@ Proof.
   apply eon_for_block_some in E. destruct E as (Hin & Hact & Hmax).
   exists e. repeat split; try assumption; apply (construct_shares_sound _ _ _ _ _ _ H).
 Qed.
+
+(* ------------------------------------------------------------------------------------- *)
+(* the release time as the registry contract means it *)
+
+(* The contract's release time is a uint64; the registry syncer stores int64(release time), so
+   a release time >= 2^63 is a negative number in the table and the contract's value is u64 of
+   the stored one.  The signed comparison of shouldTriggerDecryption alone would take such a row
+   for long released; what keeps it out is the lower bound of the window.  With the high-water
+   mark a uint64 (as it always is) the triggered rows are released in the unsigned reading too. *)
+Definition latest_in_range (latest : option Z) : Prop :=
+  forall l, latest = Some l -> 0 <= l < 2^64.
+
+Theorem prepare_time_based_unsigned c d latest number time enum tr id :
+  latest_in_range latest -> 0 <= time < 2^64 ->
+  In tr (snd (prepare_time_based c d latest number time enum)) -> In id (tg_ids tr) ->
+  exists r, In r (irs d) /\ ir_identity r = id /\ ir_eon r = tg_cfg tr /\ ir_decrypted r = false /\
+            - 2^63 <= ir_timestamp r < 2^63 /\
+            u64 (ir_timestamp r) < time /\
+            (time < 2^63 -> 0 <= ir_timestamp r).
+Proof.
+  intros Hl Ht. unfold prepare_time_based.
+  destruct (match latest with Some l => time <=? l | None => false end) eqn:Early; simpl; [intros []|].
+  set (lo := match latest with Some l => to_i64 l | None => 0 end).
+  intros Htr Hid.
+  apply emit_time_in in Htr. destruct Htr as (k & act & ids & Hz & ->). simpl in *.
+  apply (proj1 (sort_ids_in _ _)) in Hid.
+  destruct (time_groups_ok c d _ _ _ _ Hz) as [_ Hids].
+  destruct (Hids _ Hid) as (r & Hr & Hk & Hi).
+  apply filter_In in Hr. destruct Hr as [Hrows Hst].
+  apply window_rows_in in Hrows. destruct Hrows as (Hin & [Hlo Hhi] & Hdec).
+  apply should_trigger_true in Hst. destruct Hst as (e' & _ & _ & Hts).
+  exists r. split; [exact Hin|]. split; [exact Hi|]. split; [exact Hk|]. split; [exact Hdec|].
+  (* the casts, spelled out *)
+  assert (Hti : to_i64 time = if time <? 2^63 then time else time - 2^64).
+  { unfold to_i64. rewrite Z.mod_small by lia. reflexivity. }
+  assert (Hlo' : (latest = None /\ lo = 0) \/
+                 (exists l, latest = Some l /\ l < time /\ 0 <= l < 2^64 /\
+                            lo = if l <? 2^63 then l else l - 2^64)).
+  { destruct latest as [l|]; [right|left; auto].
+    exists l. apply Z.leb_gt in Early. pose proof (Hl l eq_refl) as Hr.
+    repeat split; try lia. unfold lo, to_i64. rewrite Z.mod_small by lia. reflexivity. }
+  unfold u64.
+  destruct (time <? 2^63) eqn:Et; [apply Z.ltb_lt in Et|apply Z.ltb_ge in Et]; rewrite Hti in *.
+  - assert (0 <= ir_timestamp r).
+    { destruct Hlo' as [[_ E]|(l & _ & Hlt & Hr & E)]; [lia|].
+      destruct (l <? 2^63) eqn:El; [apply Z.ltb_lt in El|apply Z.ltb_ge in El]; lia. }
+    rewrite Z.mod_small by lia. repeat split; lia.
+  - assert (- 2^63 <= ir_timestamp r).
+    { destruct Hlo' as [[_ E]|(l & _ & Hlt & Hr & E)]; [lia|].
+      destruct (l <? 2^63) eqn:El; [apply Z.ltb_lt in El|apply Z.ltb_ge in El]; lia. }
+    replace (ir_timestamp r mod 2^64) with (ir_timestamp r + 2^64)
+      by (apply Z.mod_unique with (q := -1); lia).
+    repeat split; lia.
+Qed.
